@@ -817,3 +817,180 @@ func valueDependsOn(v ssa.Value, pred func(ssa.Value) bool) bool {
 	}
 	return walk(v, 0)
 }
+
+// ---------- guards that moved into a helper ----------
+
+// summarizeGuard understands a module function whose single bool result / last error result reports the outcome of the
+// one test it makes: it returns that inner condition and whether a positive result (true, a non-nil error) is returned
+// exactly when the condition is true (posWhenTrue) or exactly when it is false.
+func summarizeGuard(callee *ssa.Function) (cnd ssa.Value, posWhenTrue bool, ok bool) {
+	if callee == nil || len(callee.Blocks) == 0 {
+		return
+	}
+	res := callee.Signature.Results()
+	if res.Len() == 0 {
+		return
+	}
+	idx := res.Len() - 1
+	isErr := isErrorType(res.At(idx).Type())
+	if !isErr {
+		if bt, isB := res.At(idx).Type().Underlying().(*types.Basic); !isB || bt.Kind() != types.Bool || res.Len() != 1 {
+			return
+		}
+	}
+	// truthiness of a returned value: 1 positive, 0 negative, -1 unknown
+	truth := func(v ssa.Value) int {
+		if isErr {
+			if isNilConst(v) {
+				return 0
+			}
+			switch v.(type) {
+			case *ssa.MakeInterface, *ssa.Call:
+				// errors.New / fmt.Errorf / a typed error value
+				if c, isC := v.(*ssa.Call); isC {
+					if sc := c.Call.StaticCallee(); sc == nil || inModule(sc) {
+						return -1
+					}
+				}
+				return 1
+			}
+			return -1
+		}
+		if c, isC := constBool(v); isC {
+			if c {
+				return 1
+			}
+			return 0
+		}
+		return -1
+	}
+	var conds []*ssa.BasicBlock
+	for _, b := range liveBlocks(callee) {
+		if _, _, _, _, _, is := effCond(b); is {
+			conds = append(conds, b)
+		}
+	}
+	rets := returnsOf(callee)
+	if len(conds) == 0 && len(rets) == 1 && !isErr {
+		// `return r.closed` / `return !r.closed`
+		v := rets[0].Instr.(*ssa.Return).Results[idx]
+		pos := true
+		for i := 0; i < 4; i++ {
+			if u, isU := v.(*ssa.UnOp); isU && u.Op == token.NOT {
+				v, pos = u.X, !pos
+				continue
+			}
+			break
+		}
+		return v, pos, true
+	}
+	if len(conds) != 1 {
+		return
+	}
+	c, tS, fS, tE, fE, _ := effCond(conds[0])
+	if !tE || !fE {
+		return
+	}
+	rT, rF := reachFrom(tS, nil), reachFrom(fS, nil)
+	allT, allF := -2, -2 // -2: none seen yet
+	for _, rs := range rets {
+		t := truth(rs.Instr.(*ssa.Return).Results[idx])
+		inT, inF := rT[rs.Block], rF[rs.Block]
+		if t < 0 || inT == inF {
+			return
+		}
+		if inT {
+			if allT != -2 && allT != t {
+				return
+			}
+			allT = t
+		} else {
+			if allF != -2 && allF != t {
+				return
+			}
+			allF = t
+		}
+	}
+	if allT == 1 && allF == 0 {
+		return c, true, true
+	}
+	if allT == 0 && allF == 1 {
+		return c, false, true
+	}
+	return
+}
+
+// condThroughHelper: block b ends in a test of the result of a static call to a module function that summarizeGuard
+// understands. It returns the helper's inner condition (a value of the callee), the call, and the successors of b that
+// are taken when the inner condition is true / false, with effCond's exactness.
+func condThroughHelper(b *ssa.BasicBlock) (inner ssa.Value, call *ssa.Call, tS, fS *ssa.BasicBlock, tE, fE, ok bool) {
+	c, cT, cF, cTE, cFE, is := effCond(b)
+	if !is {
+		return
+	}
+	asCall := func(v ssa.Value) *ssa.Call {
+		if ex, isE := v.(*ssa.Extract); isE {
+			v = ex.Tuple
+		}
+		cl, isC := v.(*ssa.Call)
+		if !isC {
+			return nil
+		}
+		if sc := cl.Call.StaticCallee(); sc == nil || !inModule(sc) {
+			return nil
+		}
+		return cl
+	}
+	if cl := asCall(c); cl != nil {
+		if in, pos, sOK := summarizeGuard(genericBody(cl.Call.StaticCallee())); sOK {
+			if pos {
+				return in, cl, cT, cF, cTE, cFE, true
+			}
+			return in, cl, cF, cT, cFE, cTE, true
+		}
+		return
+	}
+	if x, nS, nnS, nE, nnE, isN := nilTest2(b); isN {
+		if cl := asCall(x); cl != nil {
+			if in, pos, sOK := summarizeGuard(genericBody(cl.Call.StaticCallee())); sOK {
+				if pos {
+					return in, cl, nnS, nS, nnE, nE, true
+				}
+				return in, cl, nS, nnS, nE, nnE, true
+			}
+		}
+	}
+	return
+}
+
+// genericBody: the function whose blocks hold the source of sc — for the instantiation (wrapper) of a generic function
+// that is its origin.
+func genericBody(sc *ssa.Function) *ssa.Function {
+	if sc == nil {
+		return nil
+	}
+	if o := sc.Origin(); o != nil && len(o.Blocks) > 0 {
+		return o
+	}
+	return sc
+}
+
+// deferSiteOf: fn is a function literal that its parent defers exactly once (`defer func() { … }()`); the site of that
+// defer statement.
+func deferSiteOf(fn *ssa.Function) (Site, bool) {
+	par := fn.Parent()
+	if par == nil {
+		return Site{}, false
+	}
+	var res Site
+	n := 0
+	eachInstr(par, func(s Site) {
+		if d, ok := s.Instr.(*ssa.Defer); ok {
+			if mc, isMC := d.Call.Value.(*ssa.MakeClosure); isMC && mc.Fn == fn {
+				res = s
+				n++
+			}
+		}
+	})
+	return res, n == 1
+}
